@@ -122,6 +122,7 @@ func checkC05(ctx *Ctx, r *Report) {
 	c15ReferenceSiblings(ctx, r)
 	c07ReferenceByBareName(ctx, r)
 	c05FourthRound(ctx, r)
+	c05FifthRound(ctx, r)
 	c01DefinitionIdentity(ctx, r)
 }
 
@@ -2199,4 +2200,166 @@ func enclosingBlock(stack []ast.Node) *ast.BlockStmt {
 		}
 	}
 	return &ast.BlockStmt{}
+}
+
+// c05FifthRound — third hunt:
+//   - OpenAPI: the object a `$ref` designates is named after the *decoded* last token of the reference (the objects
+//     are named after the keys of components.schemas, which are not escaped);
+//   - CUE: the package name declared by the sources is mapped to the configured package whatever the number of files
+//     the package is made of (an instance built from several files has no source file);
+//   - unspec: the references to a renamed `spec` are rewritten in every schema, after every schema has been renamed.
+func c05FifthRound(ctx *Ctx, r *Report) {
+	n := 0
+	// (a)
+	if fp := ctx.Pkg("internal/openapi"); fp == nil {
+		r.Undecided("anchor lost: internal/openapi")
+	} else if fd := c12Method(fp, "getRefName"); fd == nil {
+		r.Undecided("anchor lost: openapi.getRefName")
+	} else {
+		pct, tilde, slash := false, false, false
+		bodies := []ast.Node{fd.Body}
+		ast.Inspect(fd.Body, func(m ast.Node) bool {
+			if c, ok := m.(*ast.CallExpr); ok {
+				if f := callee(fp.TypesInfo, c); f != nil && f.Pkg() == fp.Types {
+					if hfd, _ := ctx.DeclOf(f); hfd != nil && hfd.Body != nil && hfd != fd {
+						bodies = append(bodies, hfd.Body)
+					}
+				}
+			}
+			return true
+		})
+		for _, b := range bodies {
+			ast.Inspect(b, func(m ast.Node) bool {
+				switch x := m.(type) {
+				case *ast.CallExpr:
+					if f := callee(fp.TypesInfo, x); f != nil && f.Pkg() != nil && f.Pkg().Path() == "net/url" && (f.Name() == "PathUnescape" || f.Name() == "QueryUnescape") {
+						pct = true
+					}
+				case *ast.BasicLit:
+					switch x.Value {
+					case `"~0"`:
+						tilde = true
+					case `"~1"`:
+						slash = true
+					}
+				}
+				return true
+			})
+		}
+		n++
+		r.Check(pct && tilde && slash, "frontier/ref-token-decoded", "openapi.getRefName decodes the last token of the reference", fd.Pos(), "percent-decoding and JSON Pointer unescaping are undone",
+			"the referred object is named after the last token of the `$ref` taken as is: '#/components/schemas/My%2DType' (which the loader resolves to the schema My-Type) gives `ref api.My%2DType` while the object is api.My-Type — a dangling reference")
+	}
+	// (b)
+	if fp := ctx.Pkg("internal/simplecue"); fp == nil {
+		r.Undecided("anchor lost: internal/simplecue")
+	} else if fn := ctx.LookupFunc("internal/simplecue", "newReferenceResolver"); fn == nil {
+		r.Undecided("anchor lost: simplecue.newReferenceResolver")
+	} else if fd, _ := ctx.DeclOf(fn); fd != nil {
+		parents := parentMap(fd)
+		unconditional := false
+		stores := 0
+		ast.Inspect(fd.Body, func(m ast.Node) bool {
+			as, ok := m.(*ast.AssignStmt)
+			if !ok || len(as.Lhs) != 1 || len(as.Rhs) != 1 {
+				return true
+			}
+			ix, ok := ast.Unparen(as.Lhs[0]).(*ast.IndexExpr)
+			if !ok || !strings.HasSuffix(exprString(ix.X), ".importsAliasMap") || !strings.HasSuffix(exprString(as.Rhs[0]), ".SchemaPackage") {
+				return true
+			}
+			stores++
+			// is this store subject to "the value's source is one file"?
+			single := false
+			for _, c := range enclosingConds(parents, as) {
+				text := ""
+				if init, ok := c.stmt.Init.(*ast.AssignStmt); ok && len(init.Rhs) == 1 {
+					text += exprString(init.Rhs[0])
+				}
+				text += exprString(c.stmt.Cond)
+				if strings.Contains(text, "Source()") {
+					single = true
+				}
+			}
+			if !single {
+				unconditional = true
+			}
+			return true
+		})
+		if stores == 0 {
+			r.Undecided("anchor changed: simplecue.newReferenceResolver no longer maps the declared package to SchemaPackage")
+		} else {
+			n++
+			r.Check(unconditional, "frontier/cue-package-name-mapped", "simplecue.newReferenceResolver maps the declared package name", fd.Pos(), "the mapping does not depend on the value having a single source file",
+				"the package name declared by the CUE sources is mapped to the configured package only when root.Source() is a file: a package spread over several files (Source() is nil) loaded with `package: renamed` gets objects in `renamed` and references to `multi.Local` — which exists nowhere")
+		}
+	}
+	// (c)
+	if named := ctx.LookupType("internal/ast/compiler", "Unspec"); named == nil {
+		r.Undecided("anchor lost: compiler.Unspec")
+	} else {
+		cp := ctx.Pkg("internal/ast/compiler")
+		info := cp.TypesInfo
+		var process *ast.FuncDecl
+		var rewriter *types.Func // the method that builds the rewriting Visitor
+		for _, fd := range methodsOf(ctx, named) {
+			if fd.Name.Name == "Process" {
+				process = fd
+			}
+			hasVisitor := false
+			ast.Inspect(fd.Body, func(m ast.Node) bool {
+				if cl, ok := m.(*ast.CompositeLit); ok && namedName(info.TypeOf(cl)) == "Visitor" {
+					hasVisitor = true
+				}
+				return true
+			})
+			if hasVisitor {
+				rewriter, _ = info.Defs[fd.Name].(*types.Func)
+			}
+		}
+		if process == nil || rewriter == nil {
+			r.Undecided("anchor changed: compiler.Unspec has no Process / no method building a Visitor")
+		} else {
+			// the rewriting happens in a loop of Process that comes after the loop in which objects are renamed:
+			// a single loop doing both can only know the names changed in the schemas it has already seen
+			var loops []*ast.RangeStmt
+			for _, st := range process.Body.List {
+				if rs, ok := st.(*ast.RangeStmt); ok {
+					loops = append(loops, rs)
+				}
+			}
+			calls := func(rs *ast.RangeStmt, f *types.Func) bool {
+				found := false
+				ast.Inspect(rs.Body, func(m ast.Node) bool {
+					if c, ok := m.(*ast.CallExpr); ok && callee(info, c) == f {
+						found = true
+					}
+					return true
+				})
+				return found
+			}
+			rewriteLoop := -1
+			for i, rs := range loops {
+				if calls(rs, rewriter) {
+					rewriteLoop = i
+				}
+			}
+			// the table handed to the rewriter is keyed by package
+			byPackage := false
+			if sig, ok := rewriter.Type().(*types.Signature); ok {
+				for i := 0; i < sig.Params().Len(); i++ {
+					if mt, ok := sig.Params().At(i).Type().Underlying().(*types.Map); ok {
+						if _, inner := mt.Elem().Underlying().(*types.Map); inner {
+							byPackage = true
+						}
+					}
+				}
+			}
+			n++
+			r.Check(rewriteLoop >= 1 && byPackage, "siblings/unspec-rewrites-every-schema", "compiler.Unspec.Process rewrites references across schemas", process.Pos(), "references are rewritten in a second loop over all schemas, from a table keyed by package",
+				"Unspec renames the `spec` object of a schema and rewrites the references found in that schema only: `from: library.spec` in package dashboard keeps pointing to library.spec after library.spec became library.library — a dangling reference")
+		}
+	}
+	r.Count("hunted clauses of the reference rules (5th round)", n)
+	r.Floor("hunted clauses of the reference rules (5th round)", 3)
 }
